@@ -970,22 +970,32 @@ class Grounded(EnvironmentFilter):
     """Transform simulated interactions to IGL interactions."""
 
     class GroundedFeedback:
-        __slots__ = ('_rng','_goods','_bads','_seed','_argmax')
-        def __init__(self, goods, bads, argmax, seed):
-            self._rng    = None
-            self._goods  = goods
-            self._bads   = bads
-            self._seed   = seed
-            self._argmax = argmax
+        __slots__ = ('_rng','_goods','_bads','_seed','_argmax','_actions','_memo')
+        def __init__(self, goods, bads, argmax, seed, actions=()):
+            self._rng     = None
+            self._goods   = goods
+            self._bads    = bads
+            self._seed    = seed
+            self._argmax  = argmax
+            self._actions = actions
+            self._memo    = []
 
-        @lru_cache(maxsize=None)
         def __call__(self, arg):
             if not self._rng:
+                #feedback is drawn for every action in action order on first use. This way the feedback
+                #for an action doesn't depend on which actions are asked for, or in what order.
                 self._rng = CobaRandom(self._seed)
-            if arg == self._argmax:
-                return self._rng.choice(self._goods)
-            else:
-                return self._rng.choice(self._bads)
+                for action in self._actions: self._draw(action)
+
+            for action,feedback in self._memo:
+                if action == arg: return feedback
+
+            return self._draw(arg)
+
+        def _draw(self, arg):
+            feedback = self._rng.choice(self._goods if arg == self._argmax else self._bads)
+            self._memo.append((arg,feedback))
+            return feedback
 
         def __repr__(self) -> str:
             am = self._argmax
@@ -1073,9 +1083,9 @@ class Grounded(EnvironmentFilter):
                 new['rewards'] = BinaryReward(argmax)
 
             if normal:
-                new['feedbacks'] = Grounded.GroundedFeedback(goods,bads,argmax,seed)
+                new['feedbacks'] = Grounded.GroundedFeedback(goods,bads,argmax,seed,actions)
             else:
-                new['feedbacks'] = Grounded.GroundedFeedback(bads,goods,argmax,seed)
+                new['feedbacks'] = Grounded.GroundedFeedback(bads,goods,argmax,seed,actions)
 
             new['userid'  ] = userid
             new['isnormal'] = normal
